@@ -155,6 +155,51 @@ def files_for(s, v):
     return {"repro.rs": txt}
 
 
+def crash_main(s, phase):
+    """A plain program that performs the sweep of the phase in which the subject aborted the process."""
+    from enums import boundary_values, REPRS
+    cfg, d = s.cfg, s.decl
+    R = d.repr
+    L = ["fn main() {", "    let vars = [%s];" % ", ".join("E::%s" % v.ident for v in d.variants)]
+    ph = (phase or "").split(" ")[-1]
+    if ph == "conv":
+        args = boundary_values(d)
+        L.append("    let args: [i128; %d] = [%s];" % (len(args), ", ".join("i128::MIN" if a == -(1 << 127) else str(a) for a in args)))
+        if cfg.has("try_from"):
+            L.append("    for n in args { let _ = <E>::%s(n as R).map(|e| e as R); }" % cfg.item("try_from"))
+        if cfg.has("TryFrom"):
+            L.append("    for n in args { let _ = <E as TryFrom<R>>::try_from(n as R).map(|e| e as R); }")
+        if REPRS[R][0] <= 16:
+            if cfg.has("try_from"):
+                L.append("    for n in R::MIN..=R::MAX { let _ = <E>::%s(n).map(|e| e as R); }" % cfg.item("try_from"))
+            if cfg.has("TryFrom"):
+                L.append("    for n in R::MIN..=R::MAX { let _ = <E as TryFrom<R>>::try_from(n).map(|e| e as R); }")
+    elif ph == "str":
+        for f, call in (("as_str", "<E>::%s(v)" % cfg.item("as_str")), ("Display", "format!(\"{}\", v)"), ("Debug", "format!(\"{:?}\", v)"),
+                        ("IntoStr", "<&'static str as From<E>>::from(v)")):
+            if cfg.has(f):
+                L.append("    for v in vars { let _ = %s; }" % call)
+    elif ph == "from_str":
+        names = sorted(set([v.name for v in d.variants] + [v.ident for v in d.variants] + [""]))
+        L.append("    let names = [%s];" % ", ".join(_rs(n) for n in names))
+        if cfg.has("from_str"):
+            L.append("    for n in names { let _ = <E>::%s(n).map(|e| e as R); }" % cfg.item("from_str"))
+        if cfg.has("FromStr"):
+            L.append("    for n in names { let _ = <E as ::core::str::FromStr>::from_str(n).map(|e| e as R); }")
+    elif ph == "order":
+        for f in ("next", "next_back"):
+            if cfg.has(f):
+                L.append("    for v in vars { let _ = <E>::%s(v).map(|e| e as R); }" % cfg.item(f))
+    elif ph in ("iter", "names"):
+        mk = "<E>::%s()" % cfg.item(ph)
+        L.append("    let _ = %s.count(); let _ = %s.rev().count(); let mut it = %s; while let (Some(_), Some(_)) = (it.next(), it.next_back()) {}" % (mk, mk, mk))
+        L.append("    for k in 0..vars.len() + 2 { let mut it = %s; let _ = it.nth(k); let _ = it.len(); let mut it = %s; let _ = it.nth_back(k); let _ = it.next(); }" % (mk, mk))
+    elif ph == "range":
+        L.append("    for a in vars { for b in vars { let mut it = <E>::%s(a, b); let _ = it.len(); let _ = it.next_back(); let _ = it.next(); let _ = it.count(); let _ = <E>::%s(a, b).rev().count(); } }" % (cfg.item("range"), cfg.item("range")))
+    L.append("}")
+    return "\n".join(L) + "\n"
+
+
 CRASH_BODY = {
     "conv": "for n in R::MIN..=R::MAX { let _ = <E>::%(try_from)s(n); }",
 }
@@ -162,6 +207,6 @@ CRASH_BODY = {
 
 def files_for_crash(s, c):
     decl = s.standalone()
-    txt = ("// The subject aborted the process (phase %s, return code %s).\n// stderr: %s\n// Re-run: the batch binary with --only %s\n#![allow(warnings)]\n%s\nfn main() {}\n"
-           % (c["phase"], c["returncode"], c["stderr"][-400:].replace("\n", "\n// "), s.sid, decl))
+    txt = ("// The subject aborted the process (phase %s, return code %s).\n// stderr: %s\n// This program repeats the sweep of that phase; it must terminate normally.\n#![allow(warnings)]\n%s\ntype R = %s;\n%s"
+           % (c["phase"], c["returncode"], c["stderr"][-400:].replace("\n", "\n// "), decl, s.decl.repr, crash_main(s, c["phase"])))
     return {"repro.rs": txt}
